@@ -290,6 +290,91 @@ def fb_step(T, k, j):
     return implies(j >= 0, fb(T, k, j + 1) == fb(T, k, j) + k + 7 + declared_len(T, fb(T, k, j) + k))
 
 
+# ---- validity of the definition objects the decoders are handed (the preconditions of the parse_value contracts) --------
+
+def num_ok(e):
+    return (e.size_in_bits >= 1 and (is_none(e.default_calibrator) or cal_ok(e.default_calibrator)) and
+            (is_none(e.context_calibrators) or
+             forall(lambda k: cal_ok(at(e.context_calibrators, k).calibrator), 0, len(e.context_calibrators))))
+
+
+def enc_ok(e):
+    return (implies(cls_is(e, 'IntegerDataEncoding'),
+                    num_ok(e) and (e.encoding == 'unsigned' or e.encoding == 'signed' or e.encoding == 'twosComplement')) and
+            implies(cls_is(e, 'FloatDataEncoding'), num_ok(e)) and
+            implies(cls_is(e, 'StringDataEncoding'),
+                    is_none(e.length_linear_adjuster) or (is_none(e.fixed_length) and not is_none(e.dynamic_length_reference))) and
+            implies(cls_is(e, 'BinaryDataEncoding'),
+                    is_none(e.linear_adjuster) or (is_none(e.fixed_size_in_bits) and not is_none(e.size_reference_parameter))))
+
+
+@opaque('rec', 'bool')
+def param_ok(p):
+    """the parameter's type is one of the plain parameter types and its encoding satisfies the shape invariants that the
+    proved parse_value contracts require (opaque to the walk; revealed in Parameter.parse's proof)"""
+    return ((cls_is(p.parameter_type, 'IntegerParameterType') or cls_is(p.parameter_type, 'FloatParameterType') or
+             cls_is(p.parameter_type, 'StringParameterType') or cls_is(p.parameter_type, 'BinaryParameterType')) and
+            enc_ok(p.parameter_type.encoding))
+
+
+@uninterpreted('rec', 'bool')
+def entries_ok(container):
+    """every parameter reachable through the entry list (nested containers included) is param_ok"""
+    return all(param_ok(e) if cls_is(e, 'Parameter') else entries_ok(e) for e in container.entry_list)
+
+
+@axiom
+def entries_ok_def(container):
+    return entries_ok(container) == forall(
+        lambda i: implies(cls_is(at(container.entry_list, i), 'Parameter'), param_ok(at(container.entry_list, i))) and
+        implies(cls_is(at(container.entry_list, i), 'SequenceContainer'), entries_ok(at(container.entry_list, i))),
+        0, len(container.entry_list))
+
+
+@uninterpreted('rec', 'bool')
+def defn_ok(definition):
+    """every container of the definition is entries_ok"""
+    return all(entries_ok(c) for c in definition.containers.values())
+
+
+@axiom
+def defn_ok_at(definition, name):
+    return implies(defn_ok(definition) and name in definition.containers, entries_ok(definition.containers[name]))
+
+
+# ---- the entry-list walk (C05 / C14): the parameters of a container in decoding order -------------------------------------
+
+@uninterpreted('rec', 'int', ('list', ('rec', ['Parameter'])))
+def flat_upto(container, i):
+    """the Parameter objects decoded by the first i entries of the container's entry list, in order, nested container
+    references expanded in place"""
+    out = []
+    for e in container.entry_list[:i]:
+        out = out + ([e] if cls_is(e, 'Parameter') else flat_upto(e, len(e.entry_list)))
+    return out
+
+
+def flat(container):
+    return flat_upto(container, len(container.entry_list))
+
+
+@axiom
+def flat_zero(container):
+    return len(flat_upto(container, 0)) == 0
+
+
+@axiom
+def flat_step_parameter(container, i):
+    return implies(0 <= i and i < len(container.entry_list) and cls_is(at(container.entry_list, i), 'Parameter'),
+                   flat_upto(container, i + 1) == append(flat_upto(container, i), at(container.entry_list, i)))
+
+
+@axiom
+def flat_step_container(container, i):
+    return implies(0 <= i and i < len(container.entry_list) and cls_is(at(container.entry_list, i), 'SequenceContainer'),
+                   flat_upto(container, i + 1) == lcat(flat_upto(container, i), flat(at(container.entry_list, i))))
+
+
 # ---- reassembly of segmented packets (C12) ------------------------------------------------------------------------------
 
 def tail_of(b, h):
